@@ -127,6 +127,17 @@ func packPlain(s string, capN int) (string, []byte) {
 			return "err:" + ErrClass(err)
 		}
 		outb = buf[:off]
+		// the octets written do not depend on what the buffer held, nor on where in it the name starts: the same
+		// name into a used buffer (0xAA, 0x03) at offsets 0, 2 and 13
+		for _, fill := range []byte{0xAA, 0x03} {
+			for _, at := range []int{0, 2, 13} {
+				dirty := bytes.Repeat([]byte{fill}, capN+at)
+				off2, err2 := dns.PackDomainName(s, dirty, at, nil, false)
+				if err2 != nil || !bytes.Equal(dirty[at:off2], outb) {
+					Viol("C03/pack/depends-on-buffer-content", "PackDomainName into a used buffer gives other octets than into a zeroed one", map[string]string{"name": Hs(s), "clean": Hx(outb), "used": Hx(dirty[at:min(off2, len(dirty))]), "at": Itoa(at)})
+				}
+			}
+		}
 		return "ok:" + Hx(buf[:off])
 	})
 	return r, outb
